@@ -119,7 +119,10 @@ def run(ctx, rep):
                 for aid in x.atoms():
                     a2 = A.atoms[aid]
                     if a2.kind == "ind":
-                        ind_pos = a2
+                        ck2 = a2.parts[1]
+                        # the indicator [0 < use] (other indicators - presence of a source - belong to the production)
+                        if isinstance(ck2, tuple) and ck2[0] == "lt0" and A.poly_of_pid(ck2[1]) == alg.pscale(use, -1):
+                            ind_pos = a2
                 if ind_pos is not None:
                     ipoly = alg.Poly({((ind_pos.id, 1),): 1})
                     x_want = alg.pmul(alg.pmul(ipoly, prod), A.inv(use))
